@@ -244,6 +244,12 @@ func checkNoConflictAfterStore(r *Run, p *Prog, c *FuncCFG, stores []Point, rule
 						continue // persist closure
 					}
 				}
+				// prepare(..)() invoked directly
+				if inner, ok := ast.Unparen(call.Fun).(*ast.CallExpr); ok {
+					if f := CalleeFunc(c.Fn, inner); f != nil && f.Name() == "prepare" && recvNamed(f) == "indexPersist" {
+						continue
+					}
+				}
 			}
 			bad = types.ExprString(res)
 			badPos = ex.Return
